@@ -27,6 +27,40 @@ def trim(s):
 
 
 # =========================================================================== INI
+stats = {}
+
+
+def expand(v, latest, env):
+    """${name} / ${%ENV} substitution as documented: a reference is replaced by the value in effect; a reference
+    inside a reference name is resolved first; ${} and ${%} are empty; an unset variable is empty; a name that is
+    not defined stays as written."""
+    pos = 0
+    for _ in range(10000):
+        i = v.find('${', pos)
+        if i < 0:
+            return v
+        j = v.find('}', i + 2)
+        k = v.find('${', i + 2)
+        if j < 0:
+            return v
+        if 0 <= k < j:
+            pos = k
+            continue
+        name = v[i + 2:j]
+        if name == '':
+            new = ''
+        elif name[0] == '%':
+            new = (env.get(name[1:]) or '') if len(name) > 1 else ''
+        elif name in latest:
+            new = latest[name]
+        else:
+            pos = j + 1
+            continue
+        v = v.replace(v[i:j + 1], new)
+        pos = 0
+    raise RuntimeError('expand: no fixpoint')
+
+
 IDENT = 'abcdefghijklmnopqrstuvwxyzABCDEFGHIJKLMNOPQRSTUVWXYZ0123456789_-'
 LIT = IDENT + ' \t/.,;:=[]()<>!?*+~^&|\'"\\`#%'      # no '$', '{', '}', '@', CR, LF
 
@@ -82,31 +116,35 @@ def ini_doc(rng, idx, outdir):
                     name = 'k%d' % rng.randint(0, 9)
                 # raw value text from parts
                 raw = ''
+                pad = lambda: ''.join(rng.choice(BLANK) for _ in range(rng.randint(0, 2)))
                 for _p in range(rng.randint(0, 4)):
                     q = rng.random()
-                    if q < 0.55:
+                    if q < 0.50:
                         raw += ''.join(rng.choice(LIT) for _ in range(rng.randint(0, 10)))
-                    elif q < 0.8 and latest:
+                    elif q < 0.72 and latest:
                         raw += '${' + rng.choice(list(latest)) + '}'
+                    elif q < 0.80 and latest:
+                        # nested reference ${a${h}}: a helper entry h holds the tail of an existing key's name
+                        cands = [t for t in latest if len(t) >= 2]
+                        t = rng.choice(cands) if cands else None
+                        cut = rng.randint(1, len(t) - 1) if t else 0
+                        if t and trim(t[cut:]) == t[cut:] and t[cut:]:
+                            hname = 'nh%d' % len(entries)
+                            hfull = (state['section'] + '.' + hname) if state['section'] else hname
+                            lines.append(pad() + hname + pad() + sep + pad() + t[cut:] + pad())
+                            local.setdefault(state['section'], []).append(hname)
+                            entries.append((hfull, t[cut:])); latest[hfull] = t[cut:]
+                            raw += '${' + t[:cut] + '${' + hfull + '}}'
+                            stats['nested'] = stats.get('nested', 0) + 1
+                    elif q < 0.86:
+                        # a reference that does not resolve stays as written ('~' never occurs in a key)
+                        raw += rng.choice(['${~undef%d}' % rng.randint(0, 9), '${}', '${%}', '${~u${~v}}'])
                     elif env:
                         raw += '${%' + rng.choice(list(env)) + '}'
-                pad = lambda: ''.join(rng.choice(BLANK) for _ in range(rng.randint(0, 2)))
                 lines.append(pad() + name + pad() + sep + pad() + raw + pad())
-                # reference semantics: split at first separator, trim both, expand references (latest definition), store
-                v = trim(raw)
-                out = ''
-                i = 0
-                while i < len(v):
-                    if v.startswith('${', i):
-                        j = v.index('}', i)
-                        ref = v[i + 2:j]
-                        if ref.startswith('%'):
-                            out += (env.get(ref[1:]) or '')
-                        else:
-                            out += latest[ref]
-                        i = j + 1
-                    else:
-                        out += v[i]; i += 1
+                # reference semantics: split at first separator, trim both, expand references innermost-first with the
+                # definitions in effect at this line (latest definition wins; unresolved references stay literal), store
+                out = expand(trim(raw), latest, env)
                 full = (state['section'] + '.' + name) if state['section'] else name
                 local.setdefault(state['section'], []).append(name)
                 entries.append((full, out)); latest[full] = out
